@@ -2,7 +2,7 @@
 # usage: tools/confirm_seed.sh <PROP> <worktree> <what-it-needs (text)>
 # Confirms in the scratch worktree: demo fails with the change / passes without; baseline stable tests pass with the change.
 set -u
-P="$1"; WT="$2"; NEEDS="$3"
+P="$1"; WT="$2"; NEEDS="$3"; DIR="${4:-$1}"
 patch="$WT/patch_$P.diff"; demo="$WT/demo_$P.py"
 cd "$WT" || exit 2
 git checkout -q -- src && git apply "$patch" || { echo "cannot apply"; exit 2; }
@@ -25,14 +25,14 @@ PY
 )
 rm -f "$xml"; rm -rf "$WT/.mypy_cache"
 echo "$P demo_with_change_rc=$rc_with demo_without_change_rc=$rc_without baseline_missing_and_total_passed=[$missing]"
-mkdir -p /verif/seeded/$P
-cp "$patch" /verif/seeded/$P/patch.diff; cp "$demo" /verif/seeded/$P/demo.py
-python3 - "$P" "$rc_with" "$rc_without" "$missing" "$NEEDS" <<'PY'
+mkdir -p /verif/seeded/$DIR
+cp "$patch" /verif/seeded/$DIR/patch.diff; cp "$demo" /verif/seeded/$DIR/demo.py
+python3 - "$P" "$rc_with" "$rc_without" "$missing" "$NEEDS" "$DIR" <<'PY'
 import json,sys
-P,rw,rwo,missing,needs=sys.argv[1:6]
+P,rw,rwo,missing,needs,DIR=sys.argv[1:7]
 m,total=missing.split()
 json.dump({"property":P,"breaks":P,"needs_to_manifest":needs,
  "confirmed":{"demo_exit_with_change":int(rw),"demo_exit_without_change":int(rwo),"baseline_stable_tests_missing_with_change":int(m),"tests_passed_with_change":int(total),
   "how":"tools/confirm_seed.sh in the scratch worktree: demo run with and without the patch (PYTHONPATH=<worktree>/src), full pytest run with the patch compared with BASELINE.json stable_pass"},
- "source":"fresh sub-agent given only the property text and its own git worktree"}, open(f"/verif/seeded/{P}/meta.json","w"), indent=1)
+ "source":"fresh sub-agent given only the property text and its own git worktree"}, open(f"/verif/seeded/{DIR}/meta.json","w"), indent=1)
 PY
